@@ -59,8 +59,27 @@ func (sc *sessClient) data() {
 	tok := fmt.Sprintf("tok%dx%d;", seed()%100000, sessTok)
 	sessTokMu.Unlock()
 	sc.next++
-	frm := frame.NewFrame(sc.ver, sc.next, &message.Query{Query: fmt.Sprintf("SELECT * FROM tbl WHERE k = '%s'", tok),
-		Options: &message.QueryOptions{Consistency: primitive.ConsistencyLevelOne}})
+	var frm *frame.Frame
+	// a data request is anything the client forwards: a QUERY, a BATCH, or the EXECUTE of a statement it prepared in its
+	// current keyspace (unqualified table names everywhere: only the keyspace of the connection gives them a meaning)
+	switch sc.rnd.Intn(3) {
+	case 1:
+		frm = frame.NewFrame(sc.ver, sc.next, &message.Batch{Type: primitive.BatchTypeUnlogged, Consistency: primitive.ConsistencyLevelOne,
+			Children: []*message.BatchChild{{Query: fmt.Sprintf("INSERT INTO tbl (k, v) VALUES ('%s', 1)", tok)}}})
+	case 2:
+		pr, err := sc.c.Roundtrip(frame.NewFrame(sc.ver, sc.next, &message.Prepare{Query: "SELECT * FROM tbl WHERE k = ?"}), "", "prep", 8*time.Second)
+		sc.next++
+		if err == nil && pr.Frame != nil {
+			if p, ok := pr.Frame.Body.Message.(*message.PreparedResult); ok {
+				frm = frame.NewFrame(sc.ver, sc.next, &message.Execute{QueryId: p.PreparedQueryId, ResultMetadataId: p.ResultMetadataId,
+					Options: &message.QueryOptions{Consistency: primitive.ConsistencyLevelOne, PositionalValues: []*primitive.Value{primitive.NewValue([]byte(tok))}}})
+			}
+		}
+	}
+	if frm == nil {
+		frm = frame.NewFrame(sc.ver, sc.next, &message.Query{Query: fmt.Sprintf("SELECT * FROM tbl WHERE k = '%s'", tok),
+			Options: &message.QueryOptions{Consistency: primitive.ConsistencyLevelOne}})
+	}
 	_, _ = sc.c.Roundtrip(frm, tok, "data", 8*time.Second)
 }
 
